@@ -127,6 +127,7 @@ package encoding
 //@   ensures[C08] forall rr io.Reader {rr.short} :: (rr.short ==> err != nil || old(rr.short)) && (old(rr.short) ==> rr.short)
 //@   ensures forall t reflect.Value {t.rlen} :: old(allocated(rroot(t))) && !within(t, v) ==> t.rlen == old(t.rlen)
 //@   ensures[C03] err == nil ==> q.r.pos >= old(q.r.pos) + 4
+//@   call SetMapIndex#1: assert[C03] (tkind(tkeyt(rtype(v))) != 20 ==> iterfresh(rroot(arg0))) && (tkind(telemt(rtype(v))) != 20 ==> iterfresh(rroot(arg1)))
 //@   call MakeMapWithSize#1: assert[C07] arg1 <= 4096
 //@   call MakeMapWithSize#2: assert[C07] arg1 <= 4096
 //@   loop 1:
@@ -143,6 +144,7 @@ package encoding
 //@   ensures forall rr io.Reader {rr.pos} :: rr.pos >= old(rr.pos) && (old(rr.pos) <= rr.len ==> rr.pos <= rr.len)
 //@   ensures[C08] forall rr io.Reader {rr.short} :: (rr.short ==> err != nil || old(rr.short)) && (old(rr.short) ==> rr.short)
 //@   ensures forall t reflect.Value {t.rlen} :: old(allocated(rroot(t))) ==> t.rlen == old(t.rlen)
+//@   ensures[C03] err == nil && tkind(ref(typ)) != 20 ==> fresh(rroot(v))
 
 // Top-level entry points: the fast paths for plain Go scalars write / read the same images.
 //@ func (q qiEncoder) Encode(x interface{}) (err error)
